@@ -144,7 +144,7 @@ def build():
         new_entry = z3.SeqRef  # placeholder for readability
         # the entry appended: (L, handler) with L = [langs] for a str, a fresh list of the set's members for a set,
         # the very list object otherwise
-        last = c.new.list(target)[z3.Length(c.new.list(target)) - 1]
+        last = S.at(c.new.list(target), z3.Length(c.new.list(target)) - 1)
         L = S.items(last)[0]
         eff_known = z3.And(
             z3.Length(c.new.list(target)) == z3.Length(c.old.list(target)) + 1,
@@ -153,7 +153,7 @@ def build():
             z3.Implies(S.is_str(l), c.new.list(L) == z3.Unit(l)),
             z3.Implies(S.has_type(l, LANGS), L == l),
             z3.Implies(S.has_type(l, Set(Any)),
-                       z3.ForAll([x], z3.Contains(c.new.list(L), z3.Unit(x)) == c.old.has(l, x))),
+                       z3.ForAll([x], S.member(c.new.list(L), x) == c.old.has(l, x))),
             # every other pre-existing list is unchanged
             z3.ForAll([a], z3.Implies(z3.And(a > 0, a < c.old.next, a != S.addr(target)),
                                       z3.Select(c.new.field('list'), a) == z3.Select(c.old.field('list'), a))))
@@ -194,7 +194,7 @@ def build():
         g['added'] = z3.Store(g['added'], T, z3.Select(g['added'], T) + z3.If(kn, 1, 0))
 
     def rl_elem(c, j):
-        return c.pre.list(c.p.handler_list)[j]
+        return S.at(c.pre.list(c.p.handler_list), j)
 
     def rl_known(c, j):
         d = c.pre.attr(c.p.self, 'event_handlers')
@@ -331,9 +331,9 @@ def build():
 
     def match(c, k):
         Hs = H_of(c)
-        L = S.items(Hs[k])[0]
+        L = S.items(S.at(Hs, k))[0]
         lang = c.pre.attr(c.p.data, 'lang')
-        return z3.Or(z3.Contains(c.pre.list(L), z3.Unit(lang)), z3.Contains(c.pre.list(L), z3.Unit(S.mk_str('%'))))
+        return z3.Or(S.member(c.pre.list(L), lang), S.member(c.pre.list(L), S.mk_str('%')))
 
     def called(g, k):
         return z3.Select(g.cnt, k) == 1
@@ -363,8 +363,9 @@ def build():
         ('registration-order', lambda c: z3.ForAll([k_, k2_], z3.Implies(z3.And(called(c.g, k_), called(c.g, k2_), k_ < k2_),
                                                                          z3.Select(c.g.tm, k_) < z3.Select(c.g.tm, k2_)))),
         ('accumulator', lambda c: z3.And(S.ival(c.l.event_return) == c.g.acc, c.g.acc >= 0, c.g.acc <= 15, bitk(c.g.acc, 2) == 0)),
-        ('no-blocker-yet', lambda c: z3.ForAll([k_], z3.Implies(called(c.g, k_), z3.And(flag_ok(z3.Select(c.g.ret, k_)),
-                                                                                         z3.Not(blocks(z3.Select(c.g.ret, k_))))))),
+        ('no-blocker-yet', lambda c: S.forall([k_], z3.Implies(called(c.g, k_), z3.And(flag_ok(z3.Select(c.g.ret, k_)),
+                                                                                        z3.Not(blocks(z3.Select(c.g.ret, k_))))),
+                                              patterns=[z3.Select(c.g.cnt, k_), z3.Select(c.g.ret, k_)])),
         ('latest-successful', lambda c: z3.And(
             c.g.ls >= -1, c.g.ls < c.i,
             z3.Implies(c.g.ls >= 0, z3.And(called(c.g, c.g.ls), succ(z3.Select(c.g.ret, c.g.ls)))),
